@@ -33,6 +33,10 @@ TRACE = {
         ("t_m2_invert_none", "m2.invert 2 3 4 6"), ("t_m3_invert_none", "m3.invert 1 2 3 2 4 6 1 1 1"),
         ("t_m4_invert_none", "m4.invert 1 2 3 4 2 4 6 8 1 1 1 1 0 1 0 1"),
         ("t_m4_inverse_transform_vector_none", "m4.inverse_transform_vector 1 2 3 4 2 4 6 8 1 1 1 1 0 1 0 1 1 2 3"),
+        ("t_m3_inverse_transform2_some", "m3.inverse_transform2 " + M3A), ("t_m3_inverse_transform_some", "m3.inverse_transform " + M3A),
+        ("t_m4_inverse_transform_some", "m4.inverse_transform " + M4A),
+        ("t_m3_inverse_transform_vector_some", "m3.inverse_transform_vector " + M3A + " 1 2 3"),
+        ("t_m2_transpose", "m2.transpose " + M2A), ("t_m3_transpose", "m3.transpose " + M3A), ("t_m4_transpose", "m4.transpose " + M4A),
     ],
     "C03": [
         ("t_v3_cross", "v3.cross " + _seq(6)), ("t_v2_perp_dot", "v2.perp_dot " + _seq(4)),
@@ -91,7 +95,8 @@ TRACE = {
         ("t_v2_magnitude", "v2.magnitude 3 4"), ("t_v3_magnitude", "v3.magnitude 2 3 6"), ("t_v4_magnitude", "v4.magnitude 1 2 2 4"),
         ("t_v3_normalize", "v3.normalize 2 3 6"), ("t_v3_normalize_to", "v3.normalize_to 2 3 6 5"),
         ("t_v3_distance", "v3.distance 1 2 3 3 5 9"), ("t_v3_project_on", "v3.project_on " + _seq(6)),
-        ("t_v3_angle", "v3.angle " + _seq(6)), ("t_v2_angle", "v2.angle " + _seq(4)), ("t_v4_angle", "v4.angle " + _seq(8)),
+        ("t_v3_angle", "v3.angle " + _seq(6)), ("t_v2_angle", "v2.angle " + _seq(4)), ("t_v4_angle", "v4.angle 1 2 2 4 4 2 2 1"), ("t_v4_angle_clamped", "v4.angle " + _seq(8)),
+        ("t_q_angle", "q.angle 1 2 2 4 4 2 2 1"),
         ("t_q_magnitude", "q.magnitude 1 2 2 4"), ("t_q_normalize", "q.normalize 1 2 2 4"), ("t_q_distance2", "q.distance2 " + _seq(8)),
         ("t_p3_distance2", "p3.distance2 " + _seq(6)),
     ],
